@@ -94,4 +94,7 @@ def run : State → Spec → List Op → List (Option Nat × Option (Nat × Nat)
     | .get id d => (r.2, specLookup id sp, d, s.now) :: run r.1 sp' ops
     | _ => run r.1 sp' ops
 
+/-- `FileCache.__filename`: `<fnprefix>-<id>.<suffix>` in the cache folder. -/
+def entryFile (fnprefix id suffix : String) : String := fnprefix ++ "-" ++ id ++ "." ++ suffix
+
 end Suds.Cache
